@@ -60,7 +60,7 @@ ImplFresh(d, rules) ==
 ImplStep(st, rm, d, S) ==
   LET a == S.a IN
   CASE S.op = "Init"     -> ImplFresh(Tr.def, Tr.rules)
-    [] S.op = "Clear"    -> ImplFresh(a.def, a.rules)
+    [] S.op \in {"Clear", "Recreate"} -> ImplFresh(a.def, a.rules)
     [] S.op \in {"Reopen", "Skip"} -> Res(st, 0, <<>>, "")
     [] S.op \in {"Paginate", "PagLinks"} -> Res(st, 0, <<>>, S.exc)   \* read-only (clauses: Queries)
     [] S.op = "AddPage"  -> AddPageReq(st, rm, d, a.l, a.cr)
@@ -80,7 +80,7 @@ AbsFresh(d, rules) == NoReport(AbsInstallRules(EmptyAbs, EmptyRam, d, rules, 1),
 AbsStep(A, st, rm, d, S) ==
   LET a == S.a IN
   CASE S.op = "Init"     -> AbsFresh(Tr.def, Tr.rules)
-    [] S.op = "Clear"    -> AbsFresh(a.def, a.rules)
+    [] S.op \in {"Clear", "Recreate"} -> AbsFresh(a.def, a.rules)
     [] S.op \in {"Reopen", "Skip"} -> NoReport(A, "")
     [] S.op \in {"Paginate", "PagLinks"} -> NoReport(A, S.exc)
     [] S.op = "AddPage"  -> AbsAddPage(A, rm, d, a.l, a.cr)
@@ -100,14 +100,14 @@ AbsStep(A, st, rm, d, S) ==
 
 NewRam(rm, S) ==
   CASE S.op = "Init"   -> RamOfRules(Tr.rules)
-    [] S.op = "Clear"  -> RamOfRules(S.a.rules)
+    [] S.op \in {"Clear", "Recreate"} -> RamOfRules(S.a.rules)
     [] S.op = "Reopen" -> RamOfRules(S.a.rules)
     [] S.op = "AddRule" -> RamSet(rm, S.a.anchor, S.a.rule)
     [] S.op = "RemoveRule" -> IF S.a.anchor \in DOMAIN rm THEN RamDel(rm, S.a.anchor) ELSE rm
     [] OTHER -> rm
 NewDef(d, S) ==
   CASE S.op = "Init" -> Tr.def
-    [] S.op \in {"Clear", "Reopen"} -> S.a.def
+    [] S.op \in {"Clear", "Reopen", "Recreate"} -> S.a.def
     [] OTHER -> d
 
 (***************************************************************************)
@@ -296,7 +296,7 @@ LifeClauses(S, prev, post, st) ==
     <<"C11.same",   S.op = "Reopen" => (S.obs = prev.obs /\ S.d = <<>> /\ S.w = <<>>
                                        /\ post.trie = st.trie /\ post.ls = st.ls /\ post.lastId = st.lastId)>>,
     <<"C11.answers", (S.op = "Reopen" /\ Has(S.q, "ans") /\ Has(prev.q, "ans")) => S.q.ans = prev.q.ans>>,
-    <<"C11.clear",  (S.op = "Clear" /\ Has(S.q, "fresh")) =>
+    <<"C11.clear",  (S.op \in {"Clear", "Recreate"} /\ Has(S.q, "fresh")) =>
                        (S.q.fresh.rawsame /\ S.q.fresh.obssame /\ S.q.fresh.anssame)>>
   >>)
 
